@@ -836,6 +836,10 @@ def _sb_ctor(em, node, args):
     t = em.ctype(real[0]["type"])
     if t.base == "xc_sb":
         return em.expr(real[0])
+    if len(real) == 2 and t.base == "char" and t.ptr == 1:
+        # std::string(const char *, n): a fresh builder holding a copy (xc_strbuild.h: xc_sb_append; fully unwound harnesses only)
+        em.report["std::string(ptr, n) -> fresh string builder + copy"] += 1
+        return "({ xc_sb xc_n = xc_sb_new(); xc_sb_append(&xc_n, %s, %s); xc_n; })" % (em.expr(real[0]), em.expr(real[1]))
     raise ExtractionError("std::string construction from %s" % t.text())
 
 
